@@ -418,6 +418,22 @@ def check_d2(eng, rep, d2_events, report_none=True):
             continue
         if not subs:
             continue
+        if not adds:
+            verdict = _split_restore(prog, fi, subs)
+            if verdict is not None:
+                okk, why2, node2, fatal = verdict
+                if okk:
+                    rep.holds("R4b", "C19.R4b-D2", fq, "scratch-restore:_remaining_lists",
+                              "the decrements are logged, the log is returned, and every caller hands it to the restoring "
+                              "helper before any exit")
+                elif fatal:
+                    rep.violation("R4b", "C19.R4b-D2", fq, "scratch-restore:_remaining_lists", why2,
+                                  site=site_of(prog, fi, node2 or fi.node), path=[evs[0][0]])
+                else:
+                    rep.error("R4b", "C19.R4b-D2", fq, "scratch-restore:_remaining_lists",
+                              "decrement and restore are split over helpers in a way the rule cannot follow: " + why2,
+                              site=site_of(prog, fi, node2 or fi.node))
+                continue
         ok, why, node = _restore_pairing(fi, subs, adds)
         if ok:
             rep.holds("R4b", "C19.R4b-D2", fq, "scratch-restore:_remaining_lists",
@@ -428,6 +444,74 @@ def check_d2(eng, rep, d2_events, report_none=True):
     if n == 0 and report_none:
         rep.holds("R4b", "C19.R4b-D2", CFG + "._get_generating_or_nullable", "scratch-restore:none",
                   "no in-place update of the shared counters exists (they are copied first)", nontrivial=False)
+
+
+def _calls_named(node, name):
+    return [c for c in ast.walk(node) if isinstance(c, ast.Call) and (
+        (isinstance(c.func, ast.Attribute) and c.func.attr == name) or (isinstance(c.func, ast.Name) and c.func.id == name))]
+
+
+def _split_restore(prog, fi, subs):
+    """Decrement in one private helper, restore in another (extract-method form of the same discipline).  Returns None
+    when no restoring helper exists at all (then the decrement really is never restored), else (ok, why, node, fatal)."""
+    if fi.cls is None:
+        return None
+    shape = _shape(subs[0].target)
+    methods = {}
+    for q in fi.cls.mro:
+        c = prog.classes.get(q)
+        if c is not None:
+            for n, m in c.methods.items():
+                methods.setdefault(n, m)
+    restorers = {}
+    for n, m in methods.items():
+        for lp in ast.walk(m.node):
+            if isinstance(lp, ast.For) and any(isinstance(a, ast.AugAssign) and isinstance(a.op, ast.Add)
+                                               and _shape(a.target) == shape for a in ast.walk(lp)):
+                restorers[n] = (m, lp)
+    restorers.pop(fi.name, None)
+    if not restorers:
+        return None
+    # F side: every decrement is logged just before it, and the log is what F returns
+    rets = [r for r in ast.walk(fi.node) if isinstance(r, ast.Return) and r.value is not None]
+    if len(rets) != 1 or not isinstance(rets[0].value, ast.Name):
+        return False, "%s does not return its modification log" % fi.name, fi.node, False
+    log = rets[0].value.id
+    for d in subs:
+        blk = _enclosing_block(fi.node, d)
+        pos = [i for i, s_ in enumerate(blk) if s_ is d][0]
+        idx_names = sorted({x.id for x in ast.walk(d.target) if isinstance(x, ast.Name)} - {"self"})
+        if not any(isinstance(s_, ast.Expr) and isinstance(s_.value, ast.Call) and isinstance(s_.value.func, ast.Attribute)
+                   and s_.value.func.attr == "append" and ast.unparse(s_.value.func.value) == log
+                   and sorted({x.id for x in ast.walk(s_.value) if isinstance(x, ast.Name)} - {log}) == idx_names
+                   for s_ in blk[:pos]):
+            return False, "decrement is not recorded in the log %s that %s returns" % (log, fi.name), d, True
+    # callers: F's result goes to a restorer before any exit
+    callers = [m for n, m in methods.items() if n != fi.name and _calls_named(m.node, fi.name)]
+    if not callers:
+        return False, "nobody calls %s" % fi.name, fi.node, False
+    for g in callers:
+        body = g.node.body
+        idx_f = [i for i, st in enumerate(body) if _calls_named(st, fi.name)]
+        if len(idx_f) != 1 or not isinstance(body[idx_f[0]], ast.Assign) or not isinstance(body[idx_f[0]].targets[0], ast.Name):
+            return False, "the call of %s in %s is not a plain top-level `log = ...`" % (fi.name, g.name), g.node, False
+        var = body[idx_f[0]].targets[0].id
+        idx_r = [i for i, st in enumerate(body) if i > idx_f[0] and any(
+            any(isinstance(a, ast.Name) and a.id == var for a in c.args) for rn in restorers for c in _calls_named(st, rn))]
+        if not idx_r:
+            return False, "%s never hands the log of %s to a restoring helper" % (g.name, fi.name), body[idx_f[0]], True
+        for st in body[idx_f[0] + 1:idx_r[0]]:
+            for sub in ast.walk(st):
+                if isinstance(sub, (ast.Return, ast.Raise, ast.Yield, ast.YieldFrom)):
+                    return False, "an exit (%s) can leave %s between the decrements and the restore" % (
+                        type(sub).__name__.lower(), g.name), sub, True
+        if not isinstance(body[idx_r[0]], ast.Expr):
+            return False, "the restoring call in %s is conditional" % g.name, body[idx_r[0]], False
+    for rn, (m, lp) in restorers.items():
+        params = [a.arg for a in m.node.args.args]
+        if not (isinstance(lp.iter, ast.Name) and lp.iter.id in params and any(lp is st for st in m.node.body)):
+            return False, "%s does not restore by an unconditional loop over the log it is given" % rn, lp, False
+    return True, "", None, False
 
 
 def _restore_pairing(fi, subs, adds):
@@ -522,6 +606,9 @@ def check_d4(eng, rep):
             if isinstance(par, ast.Compare) and any(isinstance(c, ast.Constant) and c.value is None
                                                     for c in par.comparators):
                 continue
+            if isinstance(par, ast.Assign) and len(par.targets) == 1 and isinstance(par.targets[0], ast.Name) and \
+                    _only_tested(fi.node, par.targets[0].id):
+                continue      # cached in a local that is only looked at by branch conditions (the validation itself)
             value_reads.append(r)
         if not value_reads:
             continue
@@ -541,6 +628,15 @@ def check_d4(eng, rep):
     if n == 0:
         rep.holds("R4b", "C19.R4b-D4", owner, "scratch-index-read:none",
                   "the converter does not read the shared scratch attribute", nontrivial=False)
+
+
+def _only_tested(fn, name) -> bool:
+    """Every use of the local `name` sits in the test of an `if` / conditional expression / while."""
+    tests = [n.test for n in ast.walk(fn) if isinstance(n, (ast.If, ast.IfExp, ast.While))]
+    in_tests = {id(x) for t in tests for x in ast.walk(t)}
+    uses = [n for n in ast.walk(fn) if isinstance(n, ast.Name) and n.id == name and isinstance(n.ctx, ast.Load)]
+    stores = [n for n in ast.walk(fn) if isinstance(n, ast.Name) and n.id == name and isinstance(n.ctx, ast.Store)]
+    return len(stores) == 1 and bool(uses) and all(id(u) in in_tests for u in uses)
 
 
 def _parent(root, node):
